@@ -356,6 +356,12 @@ def as_reference(tree, relpath, done):
     if os.environ.get('SA_NO_EQUIV'):
         return set()
     from sa import equiv
+    try:
+        with open(os.path.join(REFDIR, relpath + '.txt')) as fh:
+            if fh.read() == getattr(tree, '_src', None):
+                return set()            # the module is the reference module
+    except IOError:
+        pass
     reff = reference_functions(relpath)
     if not reff:
         return set()
